@@ -177,6 +177,11 @@ class SdeintHooks(Hooks):
     def isinstance(self, interp, obj, classes):
         return True
 
+    def tensor_attr(self, interp, recv, name, node, fi):
+        if name == "requires_grad":
+            return True
+        return NotImplemented
+
 
 def eval_sdeint(model, extra_state, extra=True, which=("torchsde/_core/sdeint.py", "sdeint")):
     fi = model.func(*which)
